@@ -296,7 +296,11 @@ theorem storeDeals_inv (es : List (Int × String × Option (OuterDeal F))) : ∀
     · exact ih i h
     · cases d with
       | none => exact h
-      | some od => exact ih _ h
+      | some od =>
+        simp only
+        split
+        · exact h
+        · exact ih _ h
 
 theorem storeResponses_inv (es : List (String × Option (List (RespMsg F)))) : ∀ (i : Inst F K), InstInv i → InstInv (storeResponses i es).1 := by
   induction es with
